@@ -156,14 +156,17 @@ CLAIMED = {
         "(explicit measure), a short read has delivered exactly the contents of the data chunks in order and zck_close succeeds "
         "(read_back); together write_read_roundtrip (Props/C01Written.lean); for uncompressed files the whole output of zck_close is "
         "modelled byte for byte (Encode.closeFileNone) and write_close_read_none discharges every hypothesis from that definition: write "
-        "calls -> chunker -> file bytes -> any read schedule = the bytes written. Tied to the code: the file the implementation wrote is "
-        "compared byte for byte with closeFileNone on every uncompressed WRITE case; every WRITE case re-opens, validates and "
+        "calls -> chunker -> file bytes -> any read schedule = the bytes written; Props/C01Close.lean does the same for ANY backend "
+        "(Encode.closeFile: compressor as a parameter C, uncompressed-source flag, compression type; closeFile_reads_back / "
+        "write_close_read under the single assumption that the decompressor inverts C on non-empty contents). Tied to the code: the "
+        "file the implementation wrote is compared byte for byte with closeFile on EVERY WRITE case (for zstd files C is the table "
+        "content -> stored bytes read off that very output); every WRITE case re-opens, validates and "
         "reads back the produced file, the header bytes the implementation wrote are compared with Encode.header applied to the fields the "
         "reference parser reads out of them (re-serialisation identity) and the file length with header + data; the zck/unzck tools run on "
         "inputs with the split string at every alignment around 32 KiB block edges, chunk structure compared with the model of the scanner.",
    design_ref="DESIGN.md section 7a (reader round trip, header round trip) and section 7 C01",
-   note="Partial: the per-chunk work of the writer (compress, hash, index entry — the hypotheses WOk of written_WF) is not modelled as a "
-        "step machine but stated as what each entry must satisfy; termination of the automatic chunker and the scanner's byte-preservation "
+   note="Partial: the per-chunk work of the writer is modelled at the level of whole chunks (Encode.closeFile: entry, checksums, stored form "
+        "from the compressor parameter), not as the incremental buffer machine of comp_write / end_cchunk; termination of the automatic chunker and the scanner's byte-preservation "
         "are not theorems; codec round trip (decomp (comp x) = x) assumed.",
    technique="Lean 4 proof (accounting invariant over write calls; serialiser/parser round trip by positional decoding; reader loop invariant + termination measure over all read schedules) + differential correspondence incl. re-serialisation identity and real CLI tools"),
  'C03': dict(
